@@ -21,6 +21,13 @@ func (group *Group) AddRtmpPushSession(url string, session *rtmp.PushSession) {
 	group.mutex.Lock()
 	defer group.mutex.Unlock()
 	if group.url2PushProxy != nil {
+		// 建立转推连接的过程中，触发这次转推的pub已经离开了（也可能已经换成了另一个pub，url参数可能不一样），
+		// 此时不再保留转推的session，否则它会一直连着对端。如果还有pub，后续定时器会重新发起转推
+		if group.url2PushProxy[url].pubSessionKey != group.inSessionUniqueKey() {
+			Log.Warnf("[%s] [%s] pub session gone while relay push connecting, dispose push session.", group.UniqueKey, session.UniqueKey())
+			_ = session.Dispose()
+			return
+		}
 		group.url2PushProxy[url].pushSession = session
 	}
 }
@@ -40,6 +47,8 @@ func (group *Group) DelRtmpPushSession(url string, session *rtmp.PushSession) {
 type pushProxy struct {
 	isPushing   bool
 	pushSession *rtmp.PushSession
+
+	pubSessionKey string // 触发这次转推的pub session
 }
 
 func (group *Group) initRelayPushByConfig() {
@@ -88,6 +97,7 @@ func (group *Group) startPushIfNeeded() {
 			continue
 		}
 		v.isPushing = true
+		v.pubSessionKey = group.inSessionUniqueKey()
 
 		urlWithParam := url
 		if urlParam != "" {
@@ -112,6 +122,16 @@ func (group *Group) startPushIfNeeded() {
 			group.DelRtmpPushSession(u, pushSession)
 		}(url, urlWithParam)
 	}
+}
+
+// isPushModuleAlive 是否有转推正在进行中（包含正在建立连接的）
+func (group *Group) isPushModuleAlive() bool {
+	for _, v := range group.url2PushProxy {
+		if v.isPushing {
+			return true
+		}
+	}
+	return false
 }
 
 func (group *Group) stopPushIfNeeded() {
